@@ -1,7 +1,8 @@
 ------------------------------ MODULE MC_Render ------------------------------
 (* Render || RefTerm: every history of MaxFrames frames, each an arbitrary   *)
 (* next screen and cursor request, rendered or refreshed (a refresh after    *)
-(* the terminal's content has been scrambled); after every frame the         *)
+(* the terminal's content has been scrambled and its cursor left shown or    *)
+(* hidden by something else); after every frame the                          *)
 (* reference terminal must show the application's screen (RefTerm!FrameOK).  *)
 EXTENDS Render
 CONSTANT MaxFrames
@@ -9,14 +10,15 @@ VARIABLES ok        \* result of the frame check of the frame just rendered
 mvars == <<vars, ok>>
 
 MInit == Init /\ ok = TRUE
-DoFrame(nxt, cn, full) ==
-  LET t0 == IF full /\ steps > 0 THEN Scramble(term) ELSE term      \* a refresh works whatever was displayed
+DoFrame(nxt, cn, full, fv) ==
+  LET t0 == IF full /\ steps > 0 THEN [Scramble(term) EXCEPT !.vis = fv] ELSE term      \* a refresh works whatever was displayed
       f  == LET saved == term IN Frame(nxt, cn, full \/ refresh)
       t1 == RunCmds(t0, f.cmds)
       e  == [app |-> <<AppRow(nxt)>>, cur |-> IF cn.vis THEN <<1, 1, cn.col, cn.shape>> ELSE <<0, 0, 0, 0>>, rgb |-> TRUE, su |-> TRUE]
   IN /\ term' = t1 /\ last' = f.last /\ curLast' = cn /\ refresh' = FALSE /\ steps' = steps + 1
      /\ ok' = FrameOK(t1, e)
-MNext == steps < MaxFrames /\ \E nxt \in Screens, cn \in Cursors, full \in BOOLEAN : DoFrame(nxt, cn, full)
+MNext == steps < MaxFrames /\ \E nxt \in Screens, cn \in Cursors, full \in BOOLEAN :
+           \E fv \in (IF full THEN BOOLEAN ELSE {FALSE}) : DoFrame(nxt, cn, full, fv)
 MSpec == MInit /\ [][MNext]_mvars
 FrameAlwaysOK == ok
 View == <<last, curLast, refresh, term, ok>>
